@@ -1291,6 +1291,10 @@ func (g *Generator) generateServiceInterface(service *parser.Service) string {
 		contents += g.generateMethodSignature(method)
 		contents += tabtab + "pass\n\n"
 	}
+	if len(service.Methods) == 0 {
+		// A class needs a body.
+		contents += tab + "pass\n\n"
+	}
 
 	return contents
 }
